@@ -27,6 +27,8 @@ def root_value(case, live, where):
     pname, j, key = where
     if pname == 'vars':
         return live['vars'][key]
+    if pname == 'shortcut':
+        return live['shortcuts']['c12sc'][key]
     return live[pname]['steps'][L.step_index(j, bool(case.get('threads')))]['in'][key]
 
 
@@ -49,7 +51,8 @@ def run_case(case):
             created.setdefault(threading.get_ident(), []).append(self)
 
     turn = bool(case.get('threads'))
-    texts = {p: L.emit_pipeline(case[p], turn) for p in ('main', 'other')}
+    texts = {'main': L.emit_pipeline(case['main'], turn, case.get('parser')),
+             'other': L.emit_pipeline(case['other'], turn)}
     vstate.reset(texts, pv.Canon())
     loader_cache.clear_pipes()
     old_vars, old_shortcuts = config.vars, config.shortcuts
@@ -58,6 +61,8 @@ def run_case(case):
     config.shortcuts = {}
     if case.get('shortcut'):
         config.shortcuts = {'c12sc': {'pipeline_name': 'main', 'loader': 'vloader', 'args': copy.deepcopy(dict_in)}}
+        if case.get('sc_parser_args') is not None:
+            config.shortcuts['c12sc']['parser_args'] = list(case['sc_parser_args'])
     S.TURN.update(active=False, schedule=[], pos=0, holder=None)
     S.TURN['dead'] = set()
     runner.Context = RecordingContext
@@ -88,10 +93,11 @@ def run_case(case):
             ctx = None
             created[me] = []
             try:
+                args = list(case['args_in']) if (pname == 'main' and case.get('args_in')) else None
                 if case.get('shortcut') and pname == 'main' and tid is None:
-                    ctx = runner.run('c12sc')
+                    ctx = runner.run('c12sc', args_in=args)
                 else:
-                    ctx = runner.run(pname, dict_in=d, loader='vloader')
+                    ctx = runner.run(pname, args_in=args, dict_in=d, loader='vloader')
                 outcome = None
                 final = S.snapshot(ctx)
             except Exception as e:      # the run's own failure is an observation
